@@ -1,4 +1,4 @@
-(** C14 — the property theorems (proved here, restated in Props_C14.v). *)
+(** C14 — the property theorems (proved here and in Proofs_C14b.v, restated in Props_C14.v). *)
 From Coq Require Import ZArith List Bool Lia.
 From AwkV Require Import Base Layout.
 From AwkBuilder Require Import Builder Spec GbLemmas Invariant StepLemmas AtomStep Push OpenClose Roundtrip ToList Same.
@@ -6,14 +6,17 @@ Import ListNotations.
 Open Scope Z_scope.
 
 (* ================================================================== (a) round trip *)
-(* FULL STATEMENT (goal):
+(* FULL STATEMENT:
      forall o vs, good_opts o -> forallb pywf vs = true ->
        exists b, run o ab_init (encode_all vs) = Ok b /\ observe b = Ok (unify vs).
-   PROVED: the fragment [no_struct] — None, booleans, integers, reals (with the int->float conversion of the buffer),
-   strings and bytestrings, arbitrarily nested lists, arbitrarily heterogeneous (every UnknownBuilder, OptionBuilder,
-   UnionBuilder, ListBuilder, BoolBuilder, Int64Builder, Float64Builder, StringBuilder transition, including the
-   replacements of a node by an OptionBuilder / UnionBuilder / Float64Builder around it), for all options that make
-   GrowableBuffer grow.  MISSING: records and tuples (RecordBuilder / TupleBuilder), where [unify] is not the identity. *)
+   It is PROVED IN FULL in Proofs_C14b.v ([builder_roundtrip], session form [from_iter_session_full]) through the
+   ghost-history representation relation RecInv.rep (files RecInv, RecRep, RecFwd, RecAtom, RecStatic, RecOpen,
+   RecInner, RecRoundtrip): tuples, records with any field sets / names, any nesting, unions.
+   HERE: the first, value-level proof for the fragment [no_struct] — None, booleans, integers, reals (with the
+   int->float conversion of the buffer), strings and bytestrings, arbitrarily nested lists, arbitrarily heterogeneous
+   (every UnknownBuilder, OptionBuilder, UnionBuilder, ListBuilder, BoolBuilder, Int64Builder, Float64Builder,
+   StringBuilder transition), for all options that make GrowableBuffer grow — kept as [builder_roundtrip_partial]
+   (a corollary of the full theorem, with an independent proof through Invariant.wf / bvals). *)
 
 Lemma coerce_no_struct v : no_struct v = true -> forall p, coerce p v = val_of v.
 Proof.
